@@ -2,7 +2,6 @@ package main
 
 import (
 	"fmt"
-	"go/token"
 	"go/types"
 	"strings"
 
@@ -296,6 +295,8 @@ func (fr *Frame) execCall(ins ssa.CallInstruction, cc *ssa.CallCommon) []Term {
 		return fr.execBuiltin(ins, cc, b)
 	}
 	ci := fr.resolveCallee(cc)
+	fr.curPos = ins.Pos()
+	fr.curIns = ins
 	if fr.topFrame().isInit {
 		if ci.fn != nil && ci.fn.Name() == "init" && ci.fn.Synthetic != "" {
 			return nil // initialisation of an imported package: no effect on this package's globals
@@ -376,6 +377,9 @@ func (fr *Frame) callSpecReleases(ci *calleeInfo, ins ssa.CallInstruction) []fun
 		}
 		n := top.callOrd["rel:"+cs.Src]
 		top.callOrd["rel:"+cs.Src] = n + 1
+		if o := fr.srcOrdinal(cs.Callee); o >= 0 {
+			n = o
+		}
 		if cs.Ord >= 0 && cs.Ord != n {
 			continue
 		}
@@ -419,6 +423,9 @@ func (fr *Frame) callSpecAssumesKind(ci *calleeInfo, kind string, args []Term, a
 		}
 		n := top.callOrd["assume:"+cs.Callee+":"+cs.Src]
 		top.callOrd["assume:"+cs.Callee+":"+cs.Src] = n + 1
+		if o := fr.srcOrdinal(cs.Callee); o >= 0 {
+			n = o
+		}
 		if cs.Ord >= 0 && cs.Ord != n {
 			continue
 		}
@@ -959,8 +966,41 @@ func (fr *Frame) anchorEnv() *Env {
 	return fr.top.baseEnv(fr.st)
 }
 
+// srcOrdinal: the ordinal of the current call among the call sites of the function under
+// verification that match the pattern, in SOURCE order (stable under block reordering). Calls
+// inside inlined bodies fall back to execution order (-1 here).
+func (fr *Frame) srcOrdinal(pat string) int {
+	if fr.top != nil || fr.curIns == nil {
+		return -1
+	}
+	cur := fr.curIns.Pos()
+	n := 0
+	for _, b := range fr.fn.Blocks {
+		for _, ins := range b.Instrs {
+			ci, ok := ins.(ssa.CallInstruction)
+			if !ok || ins == fr.curIns.(ssa.Instruction) {
+				continue
+			}
+			cc := ci.Common()
+			if _, isB := cc.Value.(*ssa.Builtin); isB {
+				continue
+			}
+			if ins.Pos() >= cur {
+				continue
+			}
+			if calleeMatches(fr.resolveCallee(cc), pat) {
+				n++
+			}
+		}
+	}
+	return n
+}
+
 // patternOrdinal counts, per (pattern, phase), how many matching calls were executed so far.
 func (fr *Frame) patternOrdinal(pat, when string) int {
+	if o := fr.srcOrdinal(pat); o >= 0 {
+		return o
+	}
 	return fr.topFrame().callOrd["pat:"+when+":"+pat]
 }
 
@@ -996,7 +1036,11 @@ func (fr *Frame) callSpecAsserts(ci *calleeInfo, ord int, args []Term, argTypes 
 		if cs.Kind != "assert" || !calleeMatches(ci, cs.Callee) {
 			continue
 		}
-		if cs.Ord >= 0 && cs.Ord != top.callOrd["spec:"+cs.Callee] {
+		specOrd := top.callOrd["spec:"+cs.Callee]
+		if o := fr.srcOrdinal(cs.Callee); o >= 0 {
+			specOrd = o
+		}
+		if cs.Ord >= 0 && cs.Ord != specOrd {
 			continue
 		}
 		env := fr.curEnv()
@@ -1011,7 +1055,7 @@ func (fr *Frame) callSpecAsserts(ci *calleeInfo, ord int, args []Term, argTypes 
 		if err != nil {
 			panic(err)
 		}
-		fr.oblige("at."+lastSeg(cs.Callee), cs.Label, t, token.NoPos, "call-site assertion: "+cs.Src)
+		fr.oblige("at."+lastSeg(cs.Callee), cs.Label, t, fr.curPos, "call-site assertion: "+cs.Src)
 		top.callOrd["fired:"+cs.Src] = 1
 	}
 }
